@@ -80,7 +80,7 @@ impl Env {
     let thread = std::thread::spawn(move || {
       let _ = server.run(settings, i2, h2, Some(tx));
     });
-    let port = rx.recv_timeout(Duration::from_secs(20)).map_err(|_| anyhow::anyhow!("ord server did not start"))?;
+    let port = rx.recv_timeout(Duration::from_secs(120)).map_err(|_| anyhow::anyhow!("ord server did not start"))?;
     Ok(Env {
       core,
       scratch,
@@ -90,7 +90,7 @@ impl Env {
       thread: Some(thread),
       exe: std::env::current_exe()?,
       cwd,
-      http: reqwest::blocking::Client::builder().no_proxy().timeout(Duration::from_secs(30)).build()?,
+      http: reqwest::blocking::Client::builder().no_proxy().timeout(Duration::from_secs(120)).build()?,
       chain,
       network,
     })
